@@ -84,6 +84,8 @@ class Flow:
     def _on_store(self, p, v, st):
         if self.write_log is not None and p.obj is not None:
             self.write_log.add((p.obj.id, p.path))
+        if self.discovery and p.obj is not None and st is not None:
+            st.ghost['$w'] = st.ghost.get('$w', frozenset()) | {(p.obj.id, p.path)}
 
     # ------------------------------------------------------------------------------
     def run_function(self, fn, args, st):
@@ -419,6 +421,8 @@ class Flow:
                     keep.add(d.id)
         H = {(oid, path) for (oid, path) in written if path is not None and oid not in keep}
         self._havoc_set(st, H, 'cut%d_%d' % (ordn, it))
+        if self.discovery:
+            st.ghost['$w'] = st.ghost.get('$w', frozenset()) | frozenset(H)
         if cut.get('forget_pc'):
             # weaken the context to: function precondition + merge definitions + the invariant (dropping facts is sound)
             base = exe.pre_states.get(fn)
@@ -521,11 +525,13 @@ class Flow:
             for _ in range(8):
                 s = st.fork()
                 self._havoc_set(s, H, 'disc')
+                s.ghost['$w'] = frozenset()
                 prev_log, self.write_log = self.write_log, set()
                 try:
                     if not is_do and cond is not None:
                         exe.cond(cond, s)
                     outs = self.exec_stmt(body, s)
+                    W = set()
                     for o in outs:
                         if o.kind in ('next', 'continue'):
                             if inc is not None:
@@ -538,7 +544,9 @@ class Flow:
                                     exe.cond(cond, o.st)
                                 except PathDead:
                                     pass
-                    W = self.write_log
+                            # only what is written on a path that comes back to the loop head needs forgetting there;
+                            # stores made on the way out (return / break / error) are seen exactly by the exit states
+                            W |= set(o.st.ghost.get('$w', ()))
                 finally:
                     if prev_log is not None:
                         prev_log |= self.write_log
@@ -608,6 +616,9 @@ class Flow:
         entry = st
         head = st.fork()
         self._havoc_set(head, H, tag)
+        if self.discovery:
+            # an enclosing loop's frame discovery must see what this loop may write (its iterations end at the cut point)
+            head.ghost['$w'] = head.ghost.get('$w', frozenset()) | frozenset(h for h in H if h[1] is not None)
         for cname, term in eval_clauses(exe, inv, head, fn, loop_entry=entry):
             head.assume(term)
         var0 = None
